@@ -15,7 +15,7 @@ use std::{
         atomic::{AtomicBool, AtomicUsize, Ordering},
         Arc, Mutex,
     },
-    time::{Duration, Instant},
+    time::Duration,
 };
 
 use serde::{Deserialize, Serialize};
@@ -26,10 +26,14 @@ use vh::*;
 #[derive(Serialize, Deserialize, Clone, Debug, PartialEq)]
 #[serde(tag = "ev")]
 enum Ev {
-    /// wait for (and consume) one request
+    /// wait for (and consume) one request; starts the next response block
     W,
+    /// gate inside a response block: wait for (and consume) one further request
+    G,
     /// write these bytes as one segment
     D { hex: String },
+    /// pause long enough for everything sent so far to be delivered and read (not in the model)
+    P,
     /// close the connection (server side)
     C,
 }
@@ -52,10 +56,6 @@ struct Scenario {
     reqs: Vec<Req>,
     /// conns[authority][k] = events of the k-th connection accepted for that authority
     conns: Vec<Vec<Vec<Ev>>>,
-    /// what the scenario's author expects of a correct client, per request:
-    /// (final status, body) of the response the server meant for it; None = no expectation
-    #[serde(default)]
-    want: Vec<Option<(u16, String)>>,
 }
 
 fn d(b: &[u8]) -> Ev {
@@ -65,15 +65,44 @@ fn d(b: &[u8]) -> Ev {
 // ------------------------------------------------------------------ scripted server
 
 const TICK: Duration = Duration::from_millis(4);
-const SEG_GAP: Duration = Duration::from_millis(2);
+const SEG_GAP: Duration = Duration::from_millis(1);
+
+/// All waiting times are multiples of one unit that is calibrated at start-up to the speed of
+/// the machine (a loaded machine delivers loop-back segments and schedules threads late).
+static SCALE_PCT: AtomicUsize = AtomicUsize::new(100);
+fn ms(x: u64) -> Duration {
+    Duration::from_micros(x * 10 * SCALE_PCT.load(Ordering::Relaxed) as u64)
+}
+/// pause inside a script: everything sent before it has been read by the client after it
+fn pause() -> Duration {
+    ms(20)
+}
+/// the peer counts as silent when it did nothing for this long (must exceed `pause`)
+fn quiet() -> Duration {
+    ms(50)
+}
+fn client_timeout() -> Duration {
+    ms(400)
+}
 
 #[derive(Default)]
 struct ServerLog {
-    /// per authority: per accepted connection: request ids received (in order)
-    served: Mutex<Vec<Vec<Vec<usize>>>>,
+    /// per authority: per accepted connection: (request id, response block that consumed it)
+    served: Mutex<Vec<Vec<Vec<(usize, usize)>>>>,
     open: AtomicUsize,
     peak: AtomicUsize,
     accepted: AtomicUsize,
+    /// time of the last thing the server did or saw
+    last: Mutex<Option<std::time::Instant>>,
+}
+
+impl ServerLog {
+    fn touch(&self) {
+        *self.last.lock().unwrap() = Some(std::time::Instant::now());
+    }
+    fn idle_for(&self) -> Duration {
+        self.last.lock().unwrap().map(|t| t.elapsed()).unwrap_or(Duration::from_secs(3600))
+    }
 }
 
 fn find_crlfcrlf(b: &[u8]) -> Option<usize> {
@@ -93,11 +122,12 @@ fn handle_conn(mut s: TcpStream, evs: Vec<Ev>, auth: usize, idx: usize, log: Arc
     let mut client_gone = false;
     let mut tmp = [0u8; 4096];
     // returns false when the client closed / scenario stopped
-    let mut wait_request = |s: &mut TcpStream, inbuf: &mut Vec<u8>, client_gone: &mut bool| -> bool {
+    let mut wait_request = |s: &mut TcpStream, inbuf: &mut Vec<u8>, client_gone: &mut bool, block: usize| -> bool {
         loop {
             if let Some(n) = find_crlfcrlf(inbuf) {
                 let head: Vec<u8> = inbuf.drain(..n).collect();
-                log.served.lock().unwrap()[auth][idx].push(req_id(&head));
+                log.served.lock().unwrap()[auth][idx].push((req_id(&head), block));
+                log.touch();
                 return true;
             }
             if stop.load(Ordering::SeqCst) {
@@ -108,7 +138,10 @@ fn handle_conn(mut s: TcpStream, evs: Vec<Ev>, auth: usize, idx: usize, log: Arc
                     *client_gone = true;
                     return false;
                 }
-                Ok(n) => inbuf.extend_from_slice(&tmp[..n]),
+                Ok(n) => {
+                    inbuf.extend_from_slice(&tmp[..n]);
+                    log.touch();
+                }
                 Err(e) if matches!(e.kind(), std::io::ErrorKind::WouldBlock | std::io::ErrorKind::TimedOut) => {}
                 Err(_) => {
                     *client_gone = true;
@@ -118,30 +151,40 @@ fn handle_conn(mut s: TcpStream, evs: Vec<Ev>, auth: usize, idx: usize, log: Arc
         }
     };
     let mut alive = true;
+    let mut block = 0usize; // number of W passed
     for ev in &evs {
         match ev {
-            Ev::W => {
-                if !wait_request(&mut s, &mut inbuf, &mut client_gone) {
+            Ev::W | Ev::G => {
+                if *ev == Ev::W {
+                    block += 1;
+                }
+                if !wait_request(&mut s, &mut inbuf, &mut client_gone, block.wrapping_sub(1)) {
                     alive = false;
                     break;
                 }
+            }
+            Ev::P => {
+                std::thread::sleep(pause());
+                log.touch();
             }
             Ev::D { hex } => {
                 let b = unhex(hex);
                 if s.write_all(&b).and_then(|_| s.flush()).is_err() {
                     break;
                 }
+                log.touch();
                 std::thread::sleep(SEG_GAP);
             }
             Ev::C => {
                 let _ = s.shutdown(Shutdown::Write);
+                log.touch();
                 break;
             }
         }
     }
     // drain: log further requests, wait for the client's FIN
     while alive && !client_gone {
-        if !wait_request(&mut s, &mut inbuf, &mut client_gone) {
+        if !wait_request(&mut s, &mut inbuf, &mut client_gone, usize::MAX) {
             break;
         }
     }
@@ -155,6 +198,7 @@ fn handle_conn(mut s: TcpStream, evs: Vec<Ev>, auth: usize, idx: usize, log: Arc
         }
     }
     log.open.fetch_sub(1, Ordering::SeqCst);
+    log.touch();
 }
 
 struct Server {
@@ -186,6 +230,7 @@ fn start_server(sc: &Scenario) -> Server {
                         let o = log.open.fetch_add(1, Ordering::SeqCst) + 1;
                         log.peak.fetch_max(o, Ordering::SeqCst);
                         log.accepted.fetch_add(1, Ordering::SeqCst);
+                        log.touch();
                         log.served.lock().unwrap()[auth].push(vec![]);
                         let evs = scripts.get(idx).cloned().unwrap_or_default();
                         let (log2, stop2) = (log.clone(), stop.clone());
@@ -206,8 +251,14 @@ fn start_server(sc: &Scenario) -> Server {
 
 // ------------------------------------------------------------------ client side
 
-const CLIENT_TIMEOUT: Duration = Duration::from_millis(350);
-const SETTLE: Duration = Duration::from_millis(70);
+/// wait until the peer has been silent for `quiet()` (bounded)
+async fn settle(log: &ServerLog) {
+    let t0 = std::time::Instant::now();
+    actix_rt::time::sleep(quiet()).await;
+    while log.idle_for() < quiet() && t0.elapsed() < quiet() * 40 {
+        actix_rt::time::sleep(quiet() / 5).await;
+    }
+}
 
 #[derive(Clone, Debug, PartialEq)]
 enum Outcome {
@@ -232,7 +283,9 @@ fn class_send(e: &awc::error::SendRequestError) -> &'static str {
 fn class_payload(e: &awc::error::PayloadError) -> &'static str {
     use awc::error::PayloadError as P;
     match e {
-        P::Incomplete(_) => "incomplete",
+        // io::Error of the chunked decoder, converted by `From<io::Error> for PayloadError`
+        P::Incomplete(Some(_)) => "chunk",
+        P::Incomplete(None) => "incomplete",
         P::Io(e) if e.kind() == std::io::ErrorKind::TimedOut => "timeout",
         P::Io(_) => "io",
         P::Overflow => "overflow",
@@ -246,7 +299,7 @@ struct RunOut {
     outcomes: Vec<Outcome>,
     /// sockets held by the client after each request settled (sequential mode only)
     open_after: Vec<usize>,
-    served: Vec<Vec<Vec<usize>>>,
+    served: Vec<Vec<Vec<(usize, usize)>>>,
     peak: usize,
     accepted: usize,
 }
@@ -259,7 +312,7 @@ async fn one_request(client: &awc::Client, port: u16, k: usize, r: &Req) -> Outc
         Ok(resp) => {
             let status = resp.status().as_u16();
             if r.read {
-                let mut resp = resp.timeout(CLIENT_TIMEOUT);
+                let mut resp = resp.timeout(client_timeout());
                 let b = resp.body().limit(1 << 22).await;
                 drop(resp);
                 Outcome::Resp { status, body: Some(b.map(|b| b.to_vec()).map_err(|e| class_payload(&e))) }
@@ -279,20 +332,20 @@ fn run_scenario(sc: &Scenario) -> RunOut {
     let (outcomes, open_after) = std::thread::spawn(move || {
         vh::exec::run_local(async move {
             let client = awc::Client::builder()
-                .connector(awc::Connector::new().limit(sc2.limit).timeout(Duration::from_millis(1000)))
-                .timeout(CLIENT_TIMEOUT)
+                .connector(awc::Connector::new().limit(sc2.limit).timeout(client_timeout() * 3))
+                .timeout(client_timeout())
                 .finish();
             let mut outcomes = vec![];
             let mut open_after = vec![];
             if sc2.conc {
                 let futs: Vec<_> = sc2.reqs.iter().enumerate().map(|(k, r)| one_request(&client, ports[r.a], k, r)).collect();
                 outcomes = futures_util::future::join_all(futs).await;
-                actix_rt::time::sleep(SETTLE).await;
+                settle(&log).await;
                 open_after.push(log.open.load(Ordering::SeqCst));
             } else {
                 for (k, r) in sc2.reqs.iter().enumerate() {
                     outcomes.push(one_request(&client, ports[r.a], k, r).await);
-                    actix_rt::time::sleep(SETTLE).await;
+                    settle(&log).await;
                     open_after.push(log.open.load(Ordering::SeqCst));
                 }
             }
@@ -338,121 +391,892 @@ fn show_outcome(o: &Outcome) -> String {
     }
 }
 
+// ------------------------------------------------------------------ reference reading (oracle)
+
+/// What a response block means, read at once from its complete byte string (RFC 7230 §3.3.3).
+/// Written independently of the model: no incremental state, no buffers.
+#[derive(Debug, Clone, PartialEq)]
+enum Intent {
+    /// a final response is complete: status, body, number of bytes after its end
+    Complete { status: u16, body: Vec<u8>, extra: usize, interim: usize },
+    /// final head complete, Content-Length / chunked body not (yet) complete
+    Truncated { status: u16, interim: usize },
+    /// read-to-close body on a connection that is not closed, or no final head (yet)
+    NoEnd { interim: usize, head: Option<u16> },
+    Malformed,
+}
+
+fn split_head_ref(b: &[u8]) -> Option<(u16, bool, Vec<(String, String)>, usize)> {
+    let end = find_crlfcrlf(b)?;
+    let text = String::from_utf8_lossy(&b[..end - 4]).to_string();
+    let mut lines = text.split("\r\n");
+    let sl = lines.next()?;
+    let v11 = sl.starts_with("HTTP/1.1 ");
+    if !v11 && !sl.starts_with("HTTP/1.0 ") {
+        return Some((0, false, vec![], end));
+    }
+    let status: u16 = sl.get(9..12).and_then(|t| t.parse().ok()).unwrap_or(0);
+    let mut hs = vec![];
+    for l in lines {
+        match l.split_once(':') {
+            Some((n, v)) => hs.push((n.to_ascii_lowercase(), v.trim().to_string())),
+            None => return Some((0, false, vec![], end)),
+        }
+    }
+    Some((status, v11, hs, end))
+}
+
+fn ref_chunked(b: &[u8]) -> Result<Option<(Vec<u8>, usize)>, ()> {
+    // Ok(None) = needs more bytes
+    let mut pos = 0;
+    let mut body = vec![];
+    loop {
+        let Some(nl) = b[pos..].windows(2).position(|w| w == b"\r\n") else {
+            // no complete size line yet: everything so far must look like a size line
+            return if b[pos..].iter().all(|c| c.is_ascii_hexdigit() || b" \t;=\r".contains(c) || c.is_ascii_alphanumeric()) { Ok(None) } else { Err(()) };
+        };
+        let line = &b[pos..pos + nl];
+        let digits: Vec<u8> = line.iter().copied().take_while(|c| c.is_ascii_hexdigit()).collect();
+        if digits.is_empty() || digits.len() > 15 {
+            return Err(());
+        }
+        let rest = &line[digits.len()..];
+        let rest_trim: Vec<u8> = rest.iter().copied().skip_while(|c| *c == b' ' || *c == b'\t').collect();
+        if !(rest_trim.is_empty() || rest_trim[0] == b';') {
+            return Err(());
+        }
+        let n = usize::from_str_radix(std::str::from_utf8(&digits).unwrap(), 16).map_err(|_| ())?;
+        pos += nl + 2;
+        if n == 0 {
+            return if b.len() >= pos + 2 {
+                if &b[pos..pos + 2] == b"\r\n" { Ok(Some((body, pos + 2))) } else { Err(()) }
+            } else if b[pos..].iter().zip(b"\r\n").all(|(x, y)| x == y) {
+                Ok(None)
+            } else {
+                Err(())
+            };
+        }
+        if b.len() < pos + n {
+            return Ok(None);
+        }
+        body.extend_from_slice(&b[pos..pos + n]);
+        pos += n;
+        if b.len() < pos + 2 {
+            return if b[pos..].iter().zip(b"\r\n").all(|(x, y)| x == y) { Ok(None) } else { Err(()) };
+        }
+        if &b[pos..pos + 2] != b"\r\n" {
+            return Err(());
+        }
+        pos += 2;
+    }
+}
+
+fn ref_parse(bytes: &[u8], closed: bool, head_req: bool) -> Intent {
+    let mut b = bytes;
+    let mut interim = 0usize;
+    loop {
+        let Some((status, v11, hs, end)) = split_head_ref(b) else {
+            return Intent::NoEnd { interim, head: None };
+        };
+        if !(100..=999).contains(&status) {
+            return Intent::Malformed;
+        }
+        let rest = &b[end..];
+        if (100..200).contains(&status) && status != 101 {
+            interim += 1;
+            b = rest;
+            continue;
+        }
+        let cls: Vec<&String> = hs.iter().filter(|h| h.0 == "content-length").map(|h| &h.1).collect();
+        let tes: Vec<&String> = hs.iter().filter(|h| h.0 == "transfer-encoding").map(|h| &h.1).collect();
+        if cls.len() > 1 || tes.len() > 1 || (!cls.is_empty() && !tes.is_empty()) {
+            return Intent::Malformed;
+        }
+        if head_req || status == 204 || status == 304 {
+            return Intent::Complete { status, body: vec![], extra: rest.len(), interim };
+        }
+        if let Some(te) = tes.first() {
+            if !v11 || !te.eq_ignore_ascii_case("chunked") {
+                return Intent::Malformed;
+            }
+            return match ref_chunked(rest) {
+                Err(()) => Intent::Malformed,
+                Ok(None) => Intent::Truncated { status, interim },
+                Ok(Some((body, used))) => Intent::Complete { status, body, extra: rest.len() - used, interim },
+            };
+        }
+        if let Some(cl) = cls.first() {
+            let Ok(n) = cl.parse::<usize>() else { return Intent::Malformed };
+            if !cl.bytes().all(|c| c.is_ascii_digit()) {
+                return Intent::Malformed;
+            }
+            return if rest.len() >= n {
+                Intent::Complete { status, body: rest[..n].to_vec(), extra: rest.len() - n, interim }
+            } else {
+                Intent::Truncated { status, interim }
+            };
+        }
+        // no declared length: HTTP/1.0 and 101 run to the end of the connection; for HTTP/1.1
+        // the generator never sends body bytes in this case
+        if !v11 || status == 101 {
+            return if closed { Intent::Complete { status, body: rest.to_vec(), extra: 0, interim } } else { Intent::NoEnd { interim, head: Some(status) } };
+        }
+        return Intent::Complete { status, body: vec![], extra: rest.len(), interim };
+    }
+}
+
+/// response blocks of one connection script: (bytes, closed by C, has gate)
+fn blocks_of(evs: &[Ev]) -> Vec<(Vec<u8>, bool, bool)> {
+    let mut out: Vec<(Vec<u8>, bool, bool)> = vec![];
+    let mut started = false;
+    for e in evs {
+        match e {
+            Ev::W => {
+                out.push((vec![], false, false));
+                started = true;
+            }
+            Ev::G => {
+                if let Some(l) = out.last_mut() {
+                    l.2 = true;
+                }
+            }
+            Ev::D { hex } => {
+                if !started {
+                    out.push((vec![], false, false));
+                    started = true;
+                }
+                out.last_mut().unwrap().0.extend(unhex(hex));
+            }
+            Ev::P => {}
+            Ev::C => {
+                if let Some(l) = out.last_mut() {
+                    l.1 = true;
+                }
+                break;
+            }
+        }
+    }
+    out
+}
+
+fn known_class(sc: &Scenario) -> &'static str {
+    let mut auths: Vec<usize> = sc.reqs.iter().map(|r| r.a).collect();
+    auths.sort();
+    auths.dedup();
+    if auths.len() >= 2 {
+        return "F11-multi-authority-idle";
+    }
+    let mut f17 = false;
+    for a in &sc.conns {
+        for c in a {
+            for (bytes, closed, _) in blocks_of(c) {
+                match ref_parse(&bytes, closed, false) {
+                    Intent::Truncated { .. } if closed => return "F9-eof-before-framed-end",
+                    Intent::Complete { interim, .. } | Intent::Truncated { interim, .. } | Intent::NoEnd { interim, .. } if interim > 0 => f17 = true,
+                    _ => {}
+                }
+            }
+        }
+    }
+    if f17 {
+        "F17-interim-1xx"
+    } else {
+        ""
+    }
+}
+
+fn oracle(sc: &Scenario, r: &RunOut) -> Result<(), String> {
+    // pool
+    if r.peak > sc.limit {
+        return Err(format!("{} sockets open at once with limit {}", r.peak, sc.limit));
+    }
+    for (i, o) in r.open_after.iter().enumerate() {
+        if *o > sc.limit {
+            return Err(format!("{} sockets open after request {i} with limit {}", o, sc.limit));
+        }
+    }
+    // where did each request go
+    for (k, rq) in sc.reqs.iter().enumerate() {
+        let mut place: Option<(usize, usize, bool)> = None; // (conn, block, owner)
+        for (ci, conn) in r.served[rq.a].iter().enumerate() {
+            for (pos, (id, blk)) in conn.iter().enumerate() {
+                if *id == k {
+                    let owner = *blk != usize::MAX && !conn[..pos].iter().any(|(_, b)| b == blk);
+                    place = Some((ci, *blk, owner));
+                }
+            }
+        }
+        let out = &r.outcomes[k];
+        let is_resp = matches!(out, Outcome::Resp { .. });
+        let Some((ci, blk, owner)) = place else {
+            if is_resp {
+                return Err(format!("request {k} never reached the server but got {}", show_outcome(out)));
+            }
+            continue;
+        };
+        if !owner {
+            if is_resp {
+                return Err(format!("request {k} was not answered by the server (it only opened a gate / arrived after the script) but the client returned {}: bytes of another exchange", show_outcome(out)));
+            }
+            continue;
+        }
+        let script = sc.conns[rq.a].get(ci).cloned().unwrap_or_default();
+        let blocks = blocks_of(&script);
+        let Some((bytes, closed, _gate)) = blocks.get(blk) else { continue };
+        let intent = ref_parse(bytes, *closed, rq.head);
+        if let Outcome::Resp { status, body } = out {
+            match &intent {
+                Intent::Complete { status: s, body: b, .. } => {
+                    if status != s {
+                        return Err(format!("request {k}: status {status} returned, the server's final response is {s}{}", if (100..200).contains(status) && *status != 101 { " (interim response returned as final)" } else { "" }));
+                    }
+                    if let Some(Ok(x)) = body {
+                        if x != b {
+                            return Err(format!("request {k}: body {:?} delivered as complete, the server sent {:?}{}", String::from_utf8_lossy(x), String::from_utf8_lossy(b), if b.starts_with(x) { " (cut)" } else { "" }));
+                        }
+                    }
+                }
+                Intent::Truncated { status: s, .. } => {
+                    if let Some(Ok(x)) = body {
+                        return Err(format!("request {k}: short success: the framed body was cut by the end of the connection but {:?} was delivered as complete", String::from_utf8_lossy(x)));
+                    }
+                    if status != s {
+                        return Err(format!("request {k}: status {status} returned, the server's final response is {s}"));
+                    }
+                }
+                Intent::NoEnd { interim, head } => {
+                    if *head != Some(*status) {
+                        return Err(format!("request {k}: response {status} returned but the server sent no such final head ({} interim)", interim));
+                    }
+                    if let Some(Ok(x)) = body {
+                        return Err(format!("request {k}: body {:?} delivered as complete although a read-to-close body had not ended", String::from_utf8_lossy(x)));
+                    }
+                }
+                Intent::Malformed => {}
+            }
+        }
+        // reuse discipline: the previous exchange on this connection was read to its end
+        if blk >= 1 {
+            if let Some((pid, _)) = r.served[rq.a][ci].iter().find(|(_, b)| *b == blk - 1) {
+                let pint = ref_parse(&blocks[blk - 1].0, blocks[blk - 1].1, sc.reqs[*pid].head);
+                let done = match (&pint, &r.outcomes[*pid]) {
+                    (Intent::Complete { body, .. }, Outcome::Resp { body: got, .. }) => body.is_empty() || matches!(got, Some(Ok(_))),
+                    _ => false,
+                };
+                if !done {
+                    return Err(format!("request {k} was sent on a connection whose previous exchange (request {pid}: {}) was not read to its end", show_outcome(&r.outcomes[*pid])));
+                }
+            }
+        }
+    }
+    Ok(())
+}
+
+// ------------------------------------------------------------------ Gallina rendering
+
+fn coq_case(sc: &Scenario, f9: bool, f17: bool) -> String {
+    let reqs = coq_list(&sc.reqs, |r| format!("mk_req {} {} {}", r.a, coq_bool(r.head), coq_bool(r.read)));
+    let conns = coq_list(&sc.conns, |a| {
+        coq_list(a, |c| {
+            let evs: Vec<String> = c
+                .iter()
+                .filter_map(|e| match e {
+                    Ev::W | Ev::G => Some("EW".to_string()),
+                    Ev::D { hex } if !hex.is_empty() => Some(format!("ED (hx \"{}\")", hex)),
+                    Ev::D { .. } | Ev::P => None,
+                    Ev::C => Some("EC".to_string()),
+                })
+                .collect();
+            format!("[{}]", evs.join("; "))
+        })
+    });
+    format!("mk_case {} {} {} {} {} {}", coq_bool(f9), coq_bool(f17), sc.limit, coq_bool(sc.conc), reqs, conns)
+}
+
+fn v_run(sc: &Scenario, r: &RunOut) -> V {
+    if sc.conc {
+        V::T("conc", vec![V::L(r.outcomes.iter().map(v_outcome).collect()), V::b(r.peak <= sc.limit)])
+    } else {
+        V::T(
+            "seq",
+            vec![
+                V::L(r.outcomes.iter().zip(&r.open_after).map(|(o, n)| V::T("req", vec![v_outcome(o), V::us(*n)])).collect()),
+                V::L(r.served.iter().map(|a| V::L(a.iter().map(|c| V::L(c.iter().map(|(id, _)| V::us(*id)).collect())).collect())).collect()),
+            ],
+        )
+    }
+}
+
+// ------------------------------------------------------------------ generator
+
+#[derive(Clone)]
+enum Fr {
+    Cl,
+    Chunked,
+    NoLen,
+}
+
+fn reason(status: u16) -> &'static str {
+    match status {
+        100 => "Continue",
+        101 => "Switching Protocols",
+        102 => "Processing",
+        103 => "Early Hints",
+        200 => "OK",
+        204 => "No Content",
+        304 => "Not Modified",
+        404 => "Not Found",
+        _ => "Status",
+    }
+}
+
+/// (head, body-on-the-wire)
+fn wire(rng: &mut Rng, status: u16, v11: bool, fr: &Fr, body: &[u8], conn: Option<&str>) -> (Vec<u8>, Vec<u8>) {
+    let mut h = format!("HTTP/1.{} {} {}\r\n", if v11 { 1 } else { 0 }, status, reason(status)).into_bytes();
+    let mut push = |n: &str, v: &str| {
+        h.extend_from_slice(format!("{}:{}{}\r\n", n, if n.len() % 2 == 0 { " " } else { "" }, v).as_bytes());
+    };
+    if rng.chance(1, 3) {
+        push("server", "scripted");
+    }
+    let mut w = vec![];
+    match fr {
+        Fr::Cl => {
+            push(*rng.pick(&["content-length", "Content-Length", "CONTENT-LENGTH"]), &body.len().to_string());
+            w.extend_from_slice(body);
+        }
+        Fr::Chunked => {
+            push(*rng.pick(&["transfer-encoding", "Transfer-Encoding"]), *rng.pick(&["chunked", "Chunked"]));
+            let mut pos = 0;
+            while pos < body.len() {
+                let n = (rng.range(1, 40) as usize).min(body.len() - pos);
+                let sz = if rng.chance(1, 3) { format!("{:X}", n) } else { format!("{:x}", n) };
+                let ext = match rng.below(6) {
+                    0 => ";x=1",
+                    1 => " ",
+                    _ => "",
+                };
+                w.extend_from_slice(format!("{}{}\r\n", sz, ext).as_bytes());
+                w.extend_from_slice(&body[pos..pos + n]);
+                w.extend_from_slice(b"\r\n");
+                pos += n;
+            }
+            w.extend_from_slice(b"0\r\n\r\n");
+        }
+        Fr::NoLen => w.extend_from_slice(body),
+    }
+    if let Some(c) = conn {
+        push("connection", c);
+    }
+    if rng.chance(1, 4) {
+        push("x-pad", "abc def");
+    }
+    h.extend_from_slice(b"\r\n");
+    (h, w)
+}
+
+fn rand_body(rng: &mut Rng, max: usize) -> Vec<u8> {
+    let n = match rng.below(6) {
+        0 => 1,
+        1 => rng.range(1, 5) as usize,
+        2 => max,
+        _ => rng.range(1, max as u64) as usize,
+    };
+    (0..n).map(|i| b"abcdefghijklmnopqrstuvwxyz0123456789\r\n"[(rng.below(38) as usize + i) % 38]).collect()
+}
+
+fn segs(rng: &mut Rng, data: &[u8]) -> Vec<Ev> {
+    if data.is_empty() {
+        return vec![];
+    }
+    let cuts = if data.len() > 400 && rng.chance(1, 2) { vec![] } else { random_cuts(rng, data.len()) };
+    cut(data, &cuts).into_iter().filter(|s| !s.is_empty()).map(|s| d(&s)).collect()
+}
+
+const OK2: &[u8] = b"HTTP/1.1 200 OK\r\ncontent-length: 2\r\n\r\nok";
+
+struct Gen {
+    sc: Scenario,
+    tags: Vec<String>,
+}
+
+fn getr(a: usize, head: bool, read: bool) -> Req {
+    Req { a, head, read }
+}
+
+/// spare connection scripts: plain keep-alive `ok` responses
+fn spare(n: usize) -> Vec<Ev> {
+    (0..n).flat_map(|_| vec![Ev::W, d(OK2)]).collect()
+}
+
+/// family A: the connection is closed after `c` bytes of head+body
+fn gen_close_at(rng: &mut Rng, fr: Fr, v11: bool, body: &[u8], c: usize, tag: &str) -> Gen {
+    let (h, w) = wire(rng, 200, v11, &fr, body, None);
+    let mut all = h.clone();
+    all.extend_from_slice(&w);
+    let c = c.min(all.len());
+    let mut evs = vec![Ev::W];
+    evs.extend(segs(rng, &all[..c]));
+    evs.push(Ev::C);
+    Gen {
+        sc: Scenario { limit: 2, conc: false, reqs: vec![getr(0, false, true), getr(0, false, true)], conns: vec![vec![evs, spare(2), spare(2)]] },
+        tags: vec![format!("family:close-sweep-{tag}"), format!("close:{}", if c < h.len() { "in-head" } else if c < all.len() { "in-body" } else { "at-end" })],
+    }
+}
+
+fn rand_resp(rng: &mut Rng, maxb: usize) -> (Vec<u8>, &'static str) {
+    match rng.below(10) {
+        0 => {
+            let (h, _) = wire(rng, 204, true, &Fr::NoLen, b"", None);
+            (h, "204")
+        }
+        1 => {
+            let (h, _) = wire(rng, 304, true, &Fr::NoLen, b"", None);
+            (h, "304")
+        }
+        2 => {
+            let (h, w) = wire(rng, 200, true, &Fr::Cl, b"", None);
+            ([h, w].concat(), "cl0")
+        }
+        3 | 4 | 5 => {
+            let b = rand_body(rng, maxb);
+            let (h, w) = wire(rng, 200, true, &Fr::Chunked, &b, None);
+            ([h, w].concat(), "chunked")
+        }
+        _ => {
+            let b = rand_body(rng, maxb);
+            let st = *rng.pick(&[200u16, 404]);
+            let ka = if rng.chance(1, 6) { Some("keep-alive") } else { None };
+            let (h, w) = wire(rng, st, true, &Fr::Cl, &b, ka);
+            ([h, w].concat(), "cl")
+        }
+    }
+}
+
+/// family B/D: sequences on one authority: read / drop / HEAD, keep-alive and closing responses
+fn gen_sequence(rng: &mut Rng, maxb: usize) -> Gen {
+    let n = rng.range(2, 5) as usize;
+    let mut tags = vec!["family:sequence".to_string()];
+    let mut reqs = vec![];
+    for _ in 0..n {
+        let r = match rng.below(10) {
+            0 | 1 => getr(0, false, false),
+            2 => getr(0, true, true),
+            _ => getr(0, false, true),
+        };
+        tags.push(format!("req:{}", if r.head { "head" } else if r.read { "read" } else { "drop" }));
+        reqs.push(r);
+    }
+    let any_head = reqs.iter().any(|r| r.head);
+    let mut conns = vec![];
+    for _ in 0..n + 1 {
+        let mut evs = vec![];
+        for _ in 0..n {
+            evs.push(Ev::W);
+            // a HEAD request must not be answered with body bytes: keep head-bearing scenarios body-less
+            let (bytes, t) = if any_head {
+                let (h, _) = wire(rng, 200, true, &Fr::Cl, b"", None);
+                (h, "cl0")
+            } else {
+                rand_resp(rng, maxb)
+            };
+            tags.push(format!("resp:{t}"));
+            match rng.below(12) {
+                0 if !any_head => {
+                    // response announcing close, then closing
+                    let b = rand_body(rng, maxb);
+                    let (h, w) = wire(rng, 200, true, &Fr::Cl, &b, Some("close"));
+                    evs.extend(segs(rng, &[h, w].concat()));
+                    evs.push(Ev::C);
+                    tags.push("resp:conn-close".into());
+                    break;
+                }
+                1 if !any_head => {
+                    // HTTP/1.0 read-to-close
+                    let b = rand_body(rng, maxb);
+                    let (h, w) = wire(rng, 200, false, &Fr::NoLen, &b, None);
+                    evs.extend(segs(rng, &[h, w].concat()));
+                    evs.push(Ev::C);
+                    tags.push("resp:http10-to-close".into());
+                    break;
+                }
+                2 => {
+                    // complete keep-alive response, then the server closes the idle connection
+                    evs.extend(segs(rng, &bytes));
+                    evs.push(Ev::C);
+                    tags.push("resp:then-server-close".into());
+                    break;
+                }
+                _ => evs.extend(segs(rng, &bytes)),
+            }
+        }
+        conns.push(evs);
+    }
+    Gen { sc: Scenario { limit: rng.range(1, 3) as usize, conc: false, reqs, conns: vec![conns] }, tags }
+}
+
+/// family C: interim responses before the final one
+fn gen_interim(rng: &mut Rng) -> Gen {
+    let mut tags = vec!["family:interim".to_string()];
+    let body = rand_body(rng, 30);
+    let fr = if rng.chance(1, 2) { Fr::Cl } else { Fr::Chunked };
+    let (h, w) = wire(rng, 200, true, &fr, &body, None);
+    let fin = [h, w].concat();
+    let mut pre = vec![];
+    let k = rng.range(1, 2);
+    for _ in 0..k {
+        let st = *rng.pick(&[100u16, 102, 103]);
+        let (ih, _) = wire(rng, st, true, &Fr::NoLen, b"", None);
+        pre.extend(ih);
+        tags.push(format!("interim:{st}"));
+    }
+    let mut evs = vec![Ev::W];
+    if rng.chance(1, 2) {
+        // interim and final in one segment
+        evs.push(d(&[pre, fin].concat()));
+        tags.push("interim:same-segment".into());
+    } else {
+        // the final response is held back until a further request arrives
+        evs.push(d(&pre));
+        evs.push(Ev::G);
+        evs.extend(segs(rng, &fin));
+        tags.push("interim:gate".into());
+    }
+    evs.extend(spare(2));
+    Gen { sc: Scenario { limit: 2, conc: false, reqs: vec![getr(0, false, true), getr(0, false, true), getr(0, false, true)], conns: vec![vec![evs, spare(3), spare(3)]] }, tags }
+}
+
+/// family H: bytes after the end of a response (same segment: dropped with the read buffer;
+/// after a pause: found by the pool's check), and silent peers (time-out)
+fn gen_extra_or_stall(rng: &mut Rng) -> Gen {
+    let body = rand_body(rng, 20);
+    let (h, w) = wire(rng, 200, true, &Fr::Cl, &body, None);
+    let full = [h.clone(), w.clone()].concat();
+    let (evs, tag) = match rng.below(4) {
+        0 => (vec![Ev::W, d(&[full, b"EXTRA".to_vec()].concat()), Ev::W, d(OK2)], "extra:same-segment"),
+        1 => (vec![Ev::W, d(&full), Ev::P, d(b"EXTRA"), Ev::W, d(OK2)], "extra:late-segment"),
+        2 => {
+            let c = rng.range(1, full.len() as u64 - 1) as usize;
+            (vec![Ev::W, d(&full[..c])], "stall:silent-peer")
+        }
+        _ => (vec![Ev::W, d(&full), Ev::P, Ev::C], "idle:server-closes-later"),
+    };
+    Gen { sc: Scenario { limit: 2, conc: false, reqs: vec![getr(0, false, true), getr(0, false, true)], conns: vec![vec![evs, spare(2)]] }, tags: vec!["family:extra-stall".into(), tag.into()] }
+}
+
+/// family E: two authorities (finding F11: idle connections of the other authority)
+fn gen_two_auth(rng: &mut Rng) -> Gen {
+    let n = rng.range(2, 5) as usize;
+    let reqs: Vec<Req> = (0..n).map(|i| getr(if i == 0 { 0 } else if i == 1 { 1 } else { rng.below(2) as usize }, false, true)).collect();
+    let conns = vec![vec![spare(n), spare(n)], vec![spare(n), spare(n)]];
+    Gen { sc: Scenario { limit: rng.range(1, 2) as usize, conc: false, reqs, conns }, tags: vec!["family:two-authorities".into()] }
+}
+
+/// family F: more concurrent requests than permits, one authority
+fn gen_conc(rng: &mut Rng) -> Gen {
+    let limit = rng.range(1, 3) as usize;
+    let n = limit + rng.range(1, 5) as usize;
+    let reqs: Vec<Req> = (0..n).map(|_| getr(0, false, true)).collect();
+    let conns = vec![(0..n).map(|_| spare(n)).collect()];
+    Gen { sc: Scenario { limit, conc: true, reqs, conns }, tags: vec!["family:concurrent".into(), format!("conc:{}over{}", n, limit)] }
+}
+
+/// family G: malformed responses (single-point mutations of a valid one)
+fn gen_malformed(rng: &mut Rng) -> Gen {
+    let body = rand_body(rng, 24);
+    let chunked = rng.chance(1, 2);
+    let (h, w) = wire(rng, 200, true, if chunked { &Fr::Chunked } else { &Fr::Cl }, &body, None);
+    let hs = String::from_utf8(h.clone()).unwrap();
+    let (bytes, tag): (Vec<u8>, &str) = match rng.below(9) {
+        0 => ([hs.replace("HTTP/1.1", "HTTP/2.0").into_bytes(), w].concat(), "bad-version"),
+        1 => ([hs.replace(" 200 ", " 20 ").into_bytes(), w].concat(), "bad-status"),
+        2 => ([hs.to_ascii_lowercase().replace("content-length: ", "content-length: x").replace("content-length:", "content-length: +").into_bytes(), w].concat(), "bad-cl"),
+        3 => ([hs.replace("\r\n\r\n", "\r\ncontent-length: 3\r\ncontent-length: 3\r\n\r\n").into_bytes(), w].concat(), "dup-cl"),
+        4 => ([hs.replace("\r\n\r\n", "\r\nno colon here\r\n\r\n").into_bytes(), w].concat(), "bad-header-line"),
+        5 if chunked && !w.is_empty() => {
+            let mut w2 = w.clone();
+            w2[0] = b'z';
+            ([h, w2].concat(), "bad-chunk-size")
+        }
+        6 if chunked && w.len() > 8 => {
+            let mut w2 = w.clone();
+            let p = w2.len() - 6; // the CR before the last-chunk line, or a data CRLF
+            w2[p] = b'x';
+            ([h, w2].concat(), "bad-chunk-crlf")
+        }
+        7 => ([hs.to_ascii_lowercase().replace("transfer-encoding: chunked", "transfer-encoding: gzip").into_bytes(), w].concat(), "te-gzip"),
+        _ => ([hs.replace("\r\n\r\n", "\r\n\r\n\u{1}").into_bytes(), w].concat(), "stray-byte-after-head"),
+    };
+    let mut evs = vec![Ev::W];
+    evs.extend(segs(rng, &bytes));
+    if rng.chance(2, 3) {
+        evs.push(Ev::C);
+    } else {
+        evs.push(Ev::W);
+        evs.push(d(OK2));
+    }
+    Gen { sc: Scenario { limit: 2, conc: false, reqs: vec![getr(0, false, true), getr(0, false, true)], conns: vec![vec![evs, spare(2), spare(2)]] }, tags: vec!["family:malformed".into(), format!("malformed:{tag}")] }
+}
+
+// ------------------------------------------------------------------ main
+
+fn emit_result(em: &mut Emitter, id: String, sc: &Scenario, tags: Vec<String>, r: Result<RunOut, String>, f9: bool, f17: bool) {
+    let mut tags = tags;
+    tags.push(format!("variant:f9={},f17={}", if f9 { "fixed" } else { "orig" }, if f17 { "fixed" } else { "orig" }));
+    tags.sort();
+    tags.dedup();
+    let kc = known_class(sc).to_string();
+    if !kc.is_empty() {
+        tags.push(format!("class:{kc}"));
+    }
+    let nsegs: usize = sc.conns.iter().flatten().flatten().filter(|e| matches!(e, Ev::D { .. })).count();
+    let nontrivial = sc.reqs.len() >= 2 || nsegs >= 2;
+    match r {
+        Ok(run) => {
+            let v = v_run(sc, &run);
+            let verdict = oracle(sc, &run);
+            let show = format!(
+                "[{}] open_after {:?} served {:?} peak {}",
+                run.outcomes.iter().map(show_outcome).collect::<Vec<_>>().join("; "),
+                run.open_after,
+                run.served.iter().map(|a| a.iter().map(|c| c.iter().map(|x| x.0).collect::<Vec<_>>()).collect::<Vec<_>>()).collect::<Vec<_>>(),
+                run.peak
+            );
+            em.emit(CaseOut {
+                id,
+                input: serde_json::to_value(sc).unwrap(),
+                coq_case: Some(coq_case(sc, f9, f17)),
+                expect: Some(v.coq()),
+                sig: show.clone(),
+                impl_show: show,
+                oracle_ok: verdict.is_ok(),
+                oracle_why: verdict.err().unwrap_or_default(),
+                known_class: kc,
+                nontrivial,
+                tags,
+            });
+        }
+        Err(p) => {
+            em.panics += 1;
+            em.emit(CaseOut {
+                id,
+                input: serde_json::to_value(sc).unwrap(),
+                coq_case: None,
+                expect: None,
+                sig: format!("PANIC {p}"),
+                impl_show: format!("PANIC {p}"),
+                oracle_ok: false,
+                oracle_why: format!("harness/implementation panicked: {p}"),
+                known_class: kc,
+                nontrivial,
+                tags,
+            });
+        }
+    }
+}
+
+/// scheduling + loop-back latency of this machine right now: median of 7 thread-spawn +
+/// connect + one-byte round trips, in microseconds
+fn measure_latency_us() -> u64 {
+    let mut v: Vec<u64> = (0..7)
+        .map(|_| {
+            let t = std::time::Instant::now();
+            let l = TcpListener::bind("127.0.0.1:0").unwrap();
+            let port = l.local_addr().unwrap().port();
+            let h = std::thread::spawn(move || {
+                if let Ok((mut s, _)) = l.accept() {
+                    let mut b = [0u8; 1];
+                    let _ = s.read(&mut b);
+                    let _ = s.write_all(&b);
+                }
+            });
+            if let Ok(mut c) = TcpStream::connect(("127.0.0.1", port)) {
+                let _ = c.write_all(b"x");
+                let mut b = [0u8; 1];
+                let _ = c.read(&mut b);
+            }
+            let _ = h.join();
+            t.elapsed().as_micros() as u64
+        })
+        .collect();
+    v.sort();
+    v[v.len() / 2]
+}
+
+/// a time-out reported although the peer had nothing left to send (it closed, or completed the
+/// response) or never even saw the request: an artefact of a starved machine, not behaviour
+fn suspicious_timeout(sc: &Scenario, r: &RunOut) -> bool {
+    for (k, o) in r.outcomes.iter().enumerate() {
+        let timed_out = matches!(o, Outcome::SendErr("timeout") | Outcome::Resp { body: Some(Err("timeout")), .. });
+        if !timed_out {
+            continue;
+        }
+        let rq = &sc.reqs[k];
+        let mut found = false;
+        for (ci, conn) in r.served[rq.a].iter().enumerate() {
+            for (pos, (id, blk)) in conn.iter().enumerate() {
+                if *id != k {
+                    continue;
+                }
+                found = true;
+                let owner = *blk != usize::MAX && !conn[..pos].iter().any(|(_, b)| b == blk);
+                if !owner {
+                    continue;
+                }
+                let script = sc.conns[rq.a].get(ci).cloned().unwrap_or_default();
+                if let Some((bytes, closed, gate)) = blocks_of(&script).get(*blk) {
+                    let complete = matches!(ref_parse(bytes, *closed, rq.head), Intent::Complete { .. });
+                    if (*closed || complete) && !*gate {
+                        return true;
+                    }
+                }
+            }
+        }
+        if !found {
+            return true;
+        }
+    }
+    false
+}
+
+/// which tree is this: is the F9 / F17 repair present? (two fixed witnesses, decided by behaviour)
+fn detect_variant() -> (bool, bool) {
+    let f9 = {
+        let sc = Scenario { limit: 1, conc: false, reqs: vec![getr(0, false, true)], conns: vec![vec![vec![Ev::W, d(b"HTTP/1.1 200 OK\r\ncontent-length: 10\r\n\r\nhello"), Ev::C]]] };
+        let r = run_scenario(&sc);
+        !matches!(&r.outcomes[0], Outcome::Resp { body: Some(Ok(_)), .. })
+    };
+    let f17 = {
+        let sc = Scenario { limit: 1, conc: false, reqs: vec![getr(0, false, true)], conns: vec![vec![vec![Ev::W, d(b"HTTP/1.1 103 Early Hints\r\n\r\nHTTP/1.1 200 OK\r\ncontent-length: 2\r\n\r\nok")]]] };
+        let r = run_scenario(&sc);
+        matches!(&r.outcomes[0], Outcome::Resp { status: 200, .. })
+    };
+    (f9, f17)
+}
+
+/// the witnesses of F9 / F17 / F11 and a few reference behaviours, printed (C17_PROBE=1)
+fn probe() {
+    let show = |name: &str, sc: Scenario| {
+        let r = run_scenario(&sc);
+        println!(
+            "{name}: [{}] open_after {:?} served {:?} peak {} | oracle: {:?} | class {:?}",
+            r.outcomes.iter().map(show_outcome).collect::<Vec<_>>().join("; "),
+            r.open_after,
+            r.served,
+            r.peak,
+            oracle(&sc, &r),
+            known_class(&sc)
+        );
+    };
+    let g = |a| getr(a, false, true);
+    show("F9-length", Scenario { limit: 4, conc: false, reqs: vec![g(0), g(0)], conns: vec![vec![vec![Ev::W, d(b"HTTP/1.1 200 OK\r\ncontent-length: 10\r\n\r\nhello"), Ev::C], spare(1)]] });
+    show("F9-chunked", Scenario { limit: 4, conc: false, reqs: vec![g(0)], conns: vec![vec![vec![Ev::W, d(b"HTTP/1.1 200 OK\r\ntransfer-encoding: chunked\r\n\r\n5\r\nhel"), Ev::C]]] });
+    show("http10-eof", Scenario { limit: 4, conc: false, reqs: vec![g(0)], conns: vec![vec![vec![Ev::W, d(b"HTTP/1.0 200 OK\r\n\r\nhello"), d(b" world"), Ev::C]]] });
+    show(
+        "F17-gate",
+        Scenario { limit: 4, conc: false, reqs: vec![g(0), g(0)], conns: vec![vec![vec![Ev::W, d(b"HTTP/1.1 103 Early Hints\r\nlink: </x>\r\n\r\n"), Ev::G, d(b"HTTP/1.1 200 OK\r\ncontent-length: 5\r\n\r\nFIRST"), Ev::W, d(b"HTTP/1.1 200 OK\r\ncontent-length: 6\r\n\r\nSECOND")], spare(2)]] },
+    );
+    show("F17-same-segment", Scenario { limit: 4, conc: false, reqs: vec![g(0), g(0)], conns: vec![vec![vec![Ev::W, d(b"HTTP/1.1 100 Continue\r\n\r\nHTTP/1.1 200 OK\r\ncontent-length: 5\r\n\r\nFIRST"), Ev::W, d(OK2)], spare(2)]] });
+    show("F11", Scenario { limit: 1, conc: false, reqs: vec![g(0), g(1), g(0)], conns: vec![vec![spare(2)], vec![spare(2)]] });
+    show("304-with-cl", Scenario { limit: 2, conc: false, reqs: vec![g(0)], conns: vec![vec![vec![Ev::W, d(b"HTTP/1.1 304 Not Modified\r\ncontent-length: 4\r\n\r\n")]]] });
+    show("http11-no-length-with-body", Scenario { limit: 2, conc: false, reqs: vec![g(0)], conns: vec![vec![vec![Ev::W, d(b"HTTP/1.1 200 OK\r\n\r\nhello"), Ev::C]]] });
+}
+
 fn main() {
     let args = parse_args();
     if std::env::var("C17_PROBE").is_ok() {
         probe();
         return;
     }
-    let _ = args;
-}
-
-// ------------------------------------------------------------------ probes (re-establish F9 / F17 / F11)
-
-fn show_run(name: &str, sc: &Scenario) {
-    let t = Instant::now();
-    let r = run_scenario(sc);
-    println!(
-        "{name}: outcomes [{}] open_after {:?} served {:?} peak {} accepted {} ({} ms)",
-        r.outcomes.iter().map(show_outcome).collect::<Vec<_>>().join("; "),
-        r.open_after,
-        r.served,
-        r.peak,
-        r.accepted,
-        t.elapsed().as_millis()
-    );
-}
-
-fn get(a: usize) -> Req {
-    Req { a, head: false, read: true }
-}
-
-fn probe() {
-    let ok2 = b"HTTP/1.1 200 OK\r\ncontent-length: 2\r\n\r\nok";
-    // F9: 5 of 10 declared bytes then close
-    show_run(
-        "F9-length",
-        &Scenario { limit: 4, conc: false, reqs: vec![get(0), get(0)], want: vec![], conns: vec![vec![vec![Ev::W, d(b"HTTP/1.1 200 OK\r\ncontent-length: 10\r\n\r\nhello"), Ev::C], vec![Ev::W, d(ok2)]]] },
-    );
-    show_run(
-        "F9-chunked",
-        &Scenario { limit: 4, conc: false, reqs: vec![get(0)], want: vec![], conns: vec![vec![vec![Ev::W, d(b"HTTP/1.1 200 OK\r\ntransfer-encoding: chunked\r\n\r\n5\r\nhel"), Ev::C]]] },
-    );
-    show_run(
-        "http10-eof",
-        &Scenario { limit: 4, conc: false, reqs: vec![get(0)], want: vec![], conns: vec![vec![vec![Ev::W, d(b"HTTP/1.0 200 OK\r\n\r\nhello"), d(b" world"), Ev::C]]] },
-    );
-    // F17: interim then (on the next request) the real response
-    show_run(
-        "F17-gate",
-        &Scenario {
-            limit: 4,
-            conc: false,
-            reqs: vec![get(0), get(0)],
-            want: vec![],
-            conns: vec![vec![
-                vec![Ev::W, d(b"HTTP/1.1 103 Early Hints\r\nlink: </x>\r\n\r\n"), Ev::W, d(b"HTTP/1.1 200 OK\r\ncontent-length: 5\r\n\r\nFIRST"), Ev::W, d(b"HTTP/1.1 200 OK\r\ncontent-length: 6\r\n\r\nSECOND")],
-                vec![Ev::W, d(b"HTTP/1.1 200 OK\r\ncontent-length: 6\r\n\r\nSECOND")],
-            ]],
-        },
-    );
-    show_run(
-        "F17-inline",
-        &Scenario {
-            limit: 4,
-            conc: false,
-            reqs: vec![get(0), get(0)],
-            want: vec![],
-            conns: vec![vec![
-                vec![Ev::W, d(b"HTTP/1.1 100 Continue\r\n\r\n"), d(b"HTTP/1.1 200 OK\r\ncontent-length: 5\r\n\r\nFIRST"), Ev::W, d(b"HTTP/1.1 200 OK\r\ncontent-length: 6\r\n\r\nSECOND")],
-                vec![Ev::W, d(b"HTTP/1.1 200 OK\r\ncontent-length: 6\r\n\r\nSECOND")],
-            ]],
-        },
-    );
-    // F11: limit 1, two authorities
-    show_run(
-        "F11",
-        &Scenario { limit: 1, conc: false, reqs: vec![get(0), get(1), get(0)], want: vec![], conns: vec![vec![vec![Ev::W, d(ok2), Ev::W, d(ok2)]], vec![vec![Ev::W, d(ok2)]]] },
-    );
-    // reuse, early drop, 204/304 with content-length, leftover bytes
-    show_run(
-        "reuse+drop",
-        &Scenario {
-            limit: 2,
-            conc: false,
-            reqs: vec![get(0), Req { a: 0, head: false, read: false }, get(0)],
-            want: vec![],
-            conns: vec![vec![vec![Ev::W, d(ok2), Ev::W, d(b"HTTP/1.1 200 OK\r\ncontent-length: 4\r\n\r\nabcd")], vec![Ev::W, d(ok2)]]],
-        },
-    );
-    show_run(
-        "304-with-cl",
-        &Scenario { limit: 2, conc: false, reqs: vec![get(0)], want: vec![], conns: vec![vec![vec![Ev::W, d(b"HTTP/1.1 304 Not Modified\r\ncontent-length: 4\r\n\r\n")]]] },
-    );
-    show_run(
-        "extra-same-seg",
-        &Scenario { limit: 2, conc: false, reqs: vec![get(0), get(0)], want: vec![], conns: vec![vec![vec![Ev::W, d(b"HTTP/1.1 200 OK\r\ncontent-length: 2\r\n\r\nokEXTRA"), Ev::W, d(ok2)], vec![Ev::W, d(ok2)]]] },
-    );
-    show_run(
-        "extra-late-seg",
-        &Scenario { limit: 2, conc: false, reqs: vec![get(0), get(0)], want: vec![], conns: vec![vec![vec![Ev::W, d(ok2), d(b"EXTRA"), Ev::W, d(ok2)], vec![Ev::W, d(ok2)]]] },
-    );
-    show_run(
-        "server-closes-idle",
-        &Scenario { limit: 2, conc: false, reqs: vec![get(0), get(0)], want: vec![], conns: vec![vec![vec![Ev::W, d(ok2), Ev::C], vec![Ev::W, d(ok2)]]] },
-    );
-    show_run(
-        "head-request",
-        &Scenario { limit: 2, conc: false, reqs: vec![Req { a: 0, head: true, read: true }, get(0)], want: vec![], conns: vec![vec![vec![Ev::W, d(b"HTTP/1.1 200 OK\r\ncontent-length: 2\r\n\r\n"), Ev::W, d(ok2)]]] },
-    );
-    show_run(
-        "conc-over-limit",
-        &Scenario {
-            limit: 2,
-            conc: true,
-            reqs: (0..6).map(|_| get(0)).collect(),
-            want: vec![],
-            conns: vec![(0..6).map(|_| (0..6).flat_map(|_| vec![Ev::W, d(ok2)]).collect()).collect()],
-        },
-    );
+    if let Ok(p) = std::env::var("C17_SCALE_PCT") {
+        SCALE_PCT.store(p.parse().expect("C17_SCALE_PCT"), Ordering::SeqCst);
+    } else {
+        // idle machine: ~150 us; the unit grows with the measured latency, between 1x and 12x
+        let us = measure_latency_us();
+        SCALE_PCT.store(((us as usize) * 100 / 400).clamp(100, 1200), Ordering::SeqCst);
+    }
+    eprintln!("c17: time unit {}%", SCALE_PCT.load(Ordering::SeqCst));
+    let (f9, f17) = detect_variant();
+    let mut work: Vec<(String, Scenario, Vec<String>)> = vec![];
+    for (id, j) in args.fixed_inputs() {
+        let sc: Scenario = serde_json::from_value(j).expect("case");
+        work.push((id, sc, vec!["family:corpus".into()]));
+    }
+    if args.case.is_none() {
+        let mut rng = Rng::new(args.seed);
+        let thorough = args.thorough();
+        // exhaustive: every close offset of head and body, three framings
+        let mut idx = 0;
+        let sweeps: Vec<(Fr, bool, &[u8], &str)> = vec![
+            (Fr::Cl, true, b"hello world", "cl"),
+            (Fr::Chunked, true, b"hello, chunked world", "chunked"),
+            (Fr::NoLen, false, b"to the end", "http10"),
+        ];
+        for (fr, v11, body, tag) in &sweeps {
+            // the length of the wire form varies a little with the random header decoration
+            for c in 0..140usize {
+                let mut r = rng.fork();
+                let g = gen_close_at(&mut r, fr.clone(), *v11, body, c, tag);
+                let total: usize = g.sc.conns[0][0].iter().map(|e| if let Ev::D { hex } = e { hex.len() / 2 } else { 0 }).sum();
+                if c > total + 0 && c > 0 && total < c {
+                    // past the end for this decoration: one at-end case is enough
+                    if c > total + 1 {
+                        continue;
+                    }
+                }
+                work.push((format!("sweep-{idx}"), g.sc, g.tags));
+                idx += 1;
+            }
+        }
+        let n = args.n.unwrap_or(if thorough { 2400 } else { 300 });
+        for i in 0..n {
+            let mut r = rng.fork();
+            let maxb = if thorough && i % 7 == 0 { 20000 } else { 300 };
+            let g = match r.below(100) {
+                0..=44 => gen_sequence(&mut r, maxb),
+                45..=56 => gen_interim(&mut r),
+                57..=64 => gen_extra_or_stall(&mut r),
+                65..=71 => gen_two_auth(&mut r),
+                72..=79 => gen_conc(&mut r),
+                _ => gen_malformed(&mut r),
+            };
+            work.push((format!("gen-{i}"), g.sc, g.tags));
+        }
+    }
+    // run the scenarios on a pool of worker threads, emit in input order
+    let jobs: usize = std::env::var("C17_JOBS").ok().and_then(|s| s.parse().ok()).unwrap_or(8);
+    let next = Arc::new(AtomicUsize::new(0));
+    let work = Arc::new(work);
+    let results: Arc<Mutex<Vec<Option<Result<RunOut, String>>>>> = Arc::new(Mutex::new((0..work.len()).map(|_| None).collect()));
+    let hs: Vec<_> = (0..jobs)
+        .map(|_| {
+            let (next, work, results) = (next.clone(), work.clone(), results.clone());
+            std::thread::spawn(move || loop {
+                let i = next.fetch_add(1, Ordering::SeqCst);
+                if i >= work.len() {
+                    break;
+                }
+                let sc = work[i].1.clone();
+                let mut r = catch(|| run_scenario(&sc));
+                // a starved machine produces time-outs that are no behaviour of the client: retry
+                for _ in 0..3 {
+                    match &r {
+                        Ok(run) if suspicious_timeout(&sc, run) => r = catch(|| run_scenario(&sc)),
+                        _ => break,
+                    }
+                }
+                results.lock().unwrap()[i] = Some(r);
+            })
+        })
+        .collect();
+    for h in hs {
+        let _ = h.join();
+    }
+    let mut em = Emitter::default();
+    let mut results = results.lock().unwrap();
+    for (i, (id, sc, tags)) in work.iter().enumerate() {
+        let r = results[i].take().unwrap_or(Err("not run".into()));
+        emit_result(&mut em, id.clone(), sc, tags.clone(), r, f9, f17);
+    }
+    em.finish();
 }
